@@ -62,6 +62,7 @@ class Tr:
         self.site = 0                 # call-site counter of random draws (source order): the oracle is indexed by it
         self.pre = None               # statements hoisted out of the expression being translated (x.pop())
         self.tmp = 0
+        self.fdiv = False             # translate float(a) / b as the primitive "fdiv" (the tie says which rational) instead of an untracked quotient
 
     def fresh(self):
         self.tmp += 1
@@ -122,6 +123,9 @@ class Tr:
         if isinstance(e, ast.BinOp) and isinstance(e.op, ast.Sub) and isinstance(e.left, ast.Call) \
                 and isinstance(e.left.func, ast.Name) and e.left.func.id == 'set':
             return '(ESetDiff %s %s)' % (self.expr(e.left), self.expr(e.right))      # set(...) - b
+        if isinstance(e, ast.BinOp) and isinstance(e.op, ast.Div) and isinstance(e.left, ast.Call) and isinstance(e.left.func, ast.Name) \
+                and e.left.func.id == 'float' and len(e.left.args) == 1 and self.fdiv:
+            return '(ECall "fdiv" [%s; %s])' % (self.expr(e.left.args[0]), self.expr(e.right))     # a float quotient: the tie says which rational
         if isinstance(e, ast.BinOp) and isinstance(e.op, ast.Pow):
             return '(ECall "pow" [%s; %s])' % (self.expr(e.left), self.expr(e.right))
         if isinstance(e, ast.BinOp) and isinstance(e.op, ast.Mod) and not (isinstance(e.left, ast.Constant) and isinstance(e.left.value, str)):
@@ -166,10 +170,14 @@ class Tr:
                     and isinstance(e.args[0].args[0], ast.BinOp) and isinstance(e.args[0].args[0].op, ast.Sub):
                 d = e.args[0].args[0]         # np.argmin(abs(a - b)): a float decision, an oracle of the tie
                 return '(ECall "argmin_abs_diff" [%s; %s])' % (self.expr(d.left), self.expr(d.right))
+            if dotted(f) == 'math.log' and len(e.args) == 2 and not e.keywords:
+                return '(ECall "math.log" [%s; %s])' % (self.expr(e.args[0]), self.expr(e.args[1]))    # a float function: an oracle of the tie
             if dotted(f) in ('np.exp', 'np.log', 'np.mean') and len(e.args) == 1 and not e.keywords:
                 return '(ECall %s [%s])' % (cstring(dotted(f)), self.expr(e.args[0]))
             if isinstance(f, ast.Name) and f.id == 'min' and len(e.args) == 1 and not e.keywords:
                 return '(ECall "min" [%s])' % self.expr(e.args[0])
+            if isinstance(f, ast.Name) and f.id == 'min' and len(e.args) == 2 and not e.keywords:
+                return '(ECall "min" [(EListLit [%s; %s])])' % (self.expr(e.args[0]), self.expr(e.args[1]))
             if dotted(f) == 't.time' and not e.args and not e.keywords:
                 return '(EConst VNone)'                      # wall-clock time: only ever printed
             if isinstance(f, ast.Attribute) and isinstance(f.value, ast.Name) and f.value.id in self.assigned and f.value.id not in self.rngs \
@@ -225,6 +233,8 @@ class Tr:
                     return '(EListOf %s)' % self.expr(e.args[0])
                 if f.id == 'set' and len(e.args) == 1:
                     return '(ESetOf %s)' % self.expr(e.args[0])
+                if f.id == 'set' and not e.args:
+                    return '(EListLit [])'                  # an empty set (sets are duplicate-free lists; x.add(e) keeps them so)
                 if f.id == 'list' and len(e.args) == 1:
                     a = e.args[0]
                     if isinstance(a, ast.Call) and isinstance(a.func, ast.Attribute) and a.func.attr == 'keys' and not a.args:
@@ -338,6 +348,10 @@ class Tr:
                     return 'SSkip'
                 if isinstance(v.func, ast.Attribute) and v.func.attr == 'append' and len(v.args) == 1:
                     return '(SAppend %s %s)' % (self.target(v.func.value), self.expr(v.args[0]))
+                if isinstance(v.func, ast.Attribute) and v.func.attr == 'add' and len(v.args) == 1 and isinstance(v.func.value, ast.Name):
+                    x = self.target(v.func.value)                 # set.add(e): append unless already a member
+                    ex = self.expr(v.args[0])
+                    return '(SIf (ENotIn %s (EVar %s)) (SAppend %s %s) SSkip)' % (ex, x, x, ex)
             raise Untranslatable('expression statement')
         if isinstance(s, ast.Pass):
             return 'SSkip'
@@ -404,6 +418,8 @@ def literal_dicts(path):
     return out
 
 
+FDIV = {'g_LZW', 'g_LC', 'g_CWF'}
+
 FUNCS = [
     # (Coq name, file, class, function, prefixes under which the data module's names are visible there)
     ('g_validateSequence', 'localcider/backend/sequence.py', 'Sequence', 'validateSequence', ['data.aminoacids.', 'aminoacids.']),
@@ -428,6 +444,9 @@ FUNCS = [
     ('g_Omega_seq', 'localcider/backend/sequence.py', 'Sequence', 'Omega_seq', []),
     ('g_parseSeqFile', 'localcider/backend/seqfileparser.py', 'SequenceFileParser', 'parseSeqFile', []),
     ('g_init_core', 'localcider/backend/sequence.py', 'Sequence', '__init__', [], ('upto', 'self.dmax = dmax')),
+    ('g_LZW', 'localcider/backend/sequenceComplexity.py', 'SequenceComplexity', 'LZW', []),
+    ('g_CWF', 'localcider/backend/sequenceComplexity.py', 'SequenceComplexity', 'CWF', []),
+    ('g_LC', 'localcider/backend/sequenceComplexity.py', 'SequenceComplexity', 'LC', []),
     ('g_wl_step', 'localcider/backend/wang_landau.py', 'WangLandauMachine', 'run_normal_WL', [], ('while-body', 'f > self.convergence')),
     ('g_wl_flatcheck', 'localcider/backend/wang_landau.py', 'WangLandauMachine', '__run_flatcheck', []),
     ('g_wl_inside', 'localcider/backend/wang_landau.py', 'WangLandauMachine', 'indexInsideRelevantRegion', []),
@@ -479,6 +498,7 @@ def generate(repo):
                 for k, v in data.items():
                     consts[p + k] = v
             tr = Tr(consts)
+            tr.fdiv = name in FDIV
             for x in getattr(node, '_preseed', []):
                 if x.startswith('rng:'):
                     tr.rngs.add(x[4:])
